@@ -223,8 +223,8 @@ class Sequence(AbstractSequence):
             return Sequence(new_seq_data, self.alphabet, id=new_id)
         if self.sequence_type != other.sequence_type:
             raise ValueError("Sequences must have same type: {} != {}".format(self.sequence_type, other.sequence_type))
-        if self.parent:
-            if not self.parent.equals_except_location(other.parent):
+        if self.parent or other.parent:
+            if not (self.parent and self.parent.equals_except_location(other.parent)):
                 raise ValueError(
                     "Sequences must have same parent (except location on parent):\n{}\n  !=\n{}".format(
                         repr(self.parent), repr(other.parent)
